@@ -1,3 +1,3 @@
-(* _client.py :: _sync_get_key :: ('callarg', 'GetKey', 0, 2) :  l0 *)
+(* _client.py :: _sync_get_key :: shape kernel :  GetKey(... 2: l0  [= l0] ...) *)
 Definition k_onl_getkey_arg2 (l0 : Z) : Z :=
   l0.
